@@ -344,6 +344,23 @@ def judge(ctx, case, outs, tbl):
             call_impl(m.calc_pdist_vector, a)
         elif how == 'pdistB':
             call_impl(m.calc_pdist_vector, b)
+        elif how == 'edited':
+            # the SAME table object held other content when it was evaluated earlier (rows in reverse order), and was edited in place
+            # since: the judged call sees the content the object holds now
+            if isinstance(a, pd.DataFrame) and len(a) >= 2 and a.columns.is_unique:
+                saved = {c: a[c].copy() for c in a.columns}
+                ctx.count('step_edited_in_place')
+                for c in a.columns:
+                    a[c] = pd.Series(saved[c].to_numpy(dtype=object)[::-1].copy(), index=a.index, dtype=saved[c].dtype)
+                call_impl(m.calc_cdist_matrix, a, b) if case['kind'] == 'cdist' else call_impl(m.calc_pdist_vector, a)
+                for c in a.columns:
+                    a[c] = pd.Series(saved[c].to_numpy(dtype=object).copy(), index=a.index, dtype=saved[c].dtype)
+                if not same_object(before[0], a):      # the restore did not give back the very same table: take a fresh one, step void
+                    ctx.count('step_edited_void')
+                    objs[0] = make_obj(case['A'])
+                    if case['kind'] != 'cdist' or objs[-1] is a:
+                        objs[-1] = objs[0]
+                    before[0] = snapshot(objs[0])
     if case['kind'] == 'cdist':
         res = call_impl(metric.calc_cdist_matrix, objs[0], objs[1])
         call = '%s(%s).calc_cdist_matrix' % (case['cls'], fmt_args(case))
@@ -730,6 +747,8 @@ def add_alive(rng, case, p=0.7):
         who = rng.randint(-1, len(before) + len(after) - 1)
         hows = STEP_HOWS if case['kind'] == 'cdist' else ['same', 'selfA', 'pdistA']
         steps.append([who, rng.choice(hows)])
+    if rng.random() < 0.3:
+        steps.append([-1, 'edited'])          # last step before the judged call, on the metric under test
     case['alive'] = dict(before=before, after=after, steps=steps)
     return case
 
